@@ -99,35 +99,36 @@ const sizeBound = 1 << 47
 
 // Engine verifies one function (one SMT context).
 type Engine struct {
-	C           *smt.Ctx
-	W           *World
-	compCache   map[string][]smt.Sort
-	strLits     map[string]*smt.Term
-	strLitOrder []string
-	typeTags    map[string]int
-	tagTypes    []types.Type
-	heapSorts   map[string]smt.Sort
-	Assumes     []*smt.Term
-	Obls        []*Obligation
-	Extra       []string // raw axioms
-	top         *ssa.Function
-	classCount  map[string]int
-	inlineDepth int
-	Notes       []string // assumed contracts used, abstractions applied
-	noteSeen    map[string]bool
-	sweepOnly   bool // only safety obligations (no contracts needed)
-	Init        *State
-	namePrefix  string
-	UsedModels  map[string]bool
-	curFrame    *frame
-	version     int
-	nameSeen    map[string]int
-	divCache    map[string][2]*smt.Term
-	constTables map[string]bool
-	CheckNarrow bool // emit 'narrow' obligations for value-changing integer conversions
-	quiet       int
-	noAssume    int // inside quantifier bodies side facts would capture the bound variable
-	implQueries map[string]types.Type
+	C            *smt.Ctx
+	W            *World
+	compCache    map[string][]smt.Sort
+	strLits      map[string]*smt.Term
+	strLitOrder  []string
+	typeTags     map[string]int
+	tagTypes     []types.Type
+	heapSorts    map[string]smt.Sort
+	Assumes      []*smt.Term
+	Obls         []*Obligation
+	Extra        []string // raw axioms
+	top          *ssa.Function
+	classCount   map[string]int
+	inlineDepth  int
+	Notes        []string // assumed contracts used, abstractions applied
+	noteSeen     map[string]bool
+	sweepOnly    bool // only safety obligations (no contracts needed)
+	Init         *State
+	namePrefix   string
+	UsedModels   map[string]bool
+	curFrame     *frame
+	version      int
+	nameSeen     map[string]int
+	divCache     map[string][2]*smt.Term
+	constTables  map[string]bool
+	topFrameRule func(e *Engine, st *State, ref *smt.Term, kind string, pos string)
+	CheckNarrow  bool // emit 'narrow' obligations for value-changing integer conversions
+	quiet        int
+	noAssume     int // inside quantifier bodies side facts would capture the bound variable
+	implQueries  map[string]types.Type
 }
 
 func NewEngine(w *World) *Engine {
